@@ -374,7 +374,7 @@ func c03GenBuffer(c *ctx) {
 	// higher for cases with an interrupt or a delimiter at a chunk boundary.  Streams are
 	// processed by parallel workers (one real buffer each) and merged in order. ----
 	maxLen := c.pick(5, 7)
-	fullLen := c.pick(5, 6) // up to this length: all op paths to depth 3; beyond: depth 2
+	fullLen := c.pick(5, 6) // up to this length: all op paths to depth 3; beyond: depth 1 or 2
 	var streams [][]byte
 	var enum func(stream []byte)
 	enum = func(stream []byte) {
@@ -410,7 +410,7 @@ func c03GenBuffer(c *ctx) {
 		}
 		depth := 3
 		if len(stream) > fullLen {
-			depth = 2
+			depth = 2 - si%2 // the longest streams: depth 2 for every other stream, else 1
 		}
 		// op paths: DFS on the flat reference; a path is extended only after Done
 		var paths [][]c03Op
@@ -444,7 +444,7 @@ func c03GenBuffer(c *ctx) {
 		for pi, p := range paths {
 			res, pops := real.run(one, stream, p, true)
 			flatRes[pi] = c03ResStr(c03Truncate(res))
-			if len(stream) <= 4 || (si+pi)%4 == 0 || (thorough && len(stream) <= 5) {
+			if len(stream) <= 4 || (len(stream) == 5 && ((si+pi)%4 == 0 || thorough)) || (len(stream) >= 6 && (si+pi)%16 == 0) {
 				emitL(one, p, res, pops, hasI(res))
 			}
 			c03CheckRef(vio, one, stream, p, res)
@@ -487,8 +487,10 @@ func c03GenBuffer(c *ctx) {
 				if len(stream) <= 3 {
 					mod = 1
 				}
-				if len(stream) > fullLen {
-					mod *= 8
+				if len(stream) == 6 {
+					mod *= 10
+				} else if len(stream) >= 7 {
+					mod *= 40
 				}
 				if h%mod == 0 {
 					emitL(cs, p, res, pops, interrupted)
